@@ -12,6 +12,9 @@ Stages (DESIGN.md C18):
              server action registries and of NotificationCenter
   datagram   hostile datagrams (mutations of valid packets) delivered to the
              receiver under a deterministic line-step budget
+  datagram_atheris  (thorough tier, optional) corpus grown by atheris/libFuzzer
+             on sc3.base._osclib in a child process, each entry judged by the
+             datagram executor through the real receiver
 """
 
 import logging
@@ -1832,6 +1835,60 @@ def datagram_strategy():
         'serial': st.integers(0, 99)})
 
 
+# --- stage: datagram_atheris (thorough tier only, optional) ------------------------------
+
+ATHERIS_SEEDS = [
+    ['msg', '/c18/ok', [1, 0.5, 'abc', {'blob': '00ff10'}]],
+    ['msg', '/a', [[1, [2, 'x']], True, False]],
+    ['bundle', 1, [['msg', '/c18/ok', [7]], ['msg', '/abc', ['s']]]],
+    ['bundle', 1, [['bundle', 2 ** 63, [['msg', '/a', [1]]]],
+                   ['msg', '/c18/ok', [{'blob': ''}]]]],
+]
+
+
+def atheris_cases(ctx):
+    """Coverage-guided corpus built by vlib/resp_fuzz_worker.py in a child
+    process (even shards: empty corpus, odd shards: seeded with valid
+    packets); every corpus entry is then judged by the datagram executor
+    through the real receiver.  Skipped in the quick tier and when atheris
+    is not installed."""
+    import importlib.util
+    import os
+    import shutil
+    import subprocess
+    import tempfile
+    from vlib.core import SC3_PATH
+    if ctx.tier != 'thorough':
+        return
+    if importlib.util.find_spec('atheris') is None:
+        ctx.notes.append('atheris not installed: datagram_atheris skipped')
+        return
+    worker = os.path.join(os.path.dirname(os.path.dirname(
+        os.path.abspath(__file__))), 'vlib', 'resp_fuzz_worker.py')
+    d = tempfile.mkdtemp(prefix='c18_corpus_')
+    try:
+        if ctx.shard % 2:
+            for k, spec in enumerate(ATHERIS_SEEDS):
+                raw = _enc_packet(spec, 0, {'size': [], 'str': [],
+                                            'tags': []})
+                with open(os.path.join(d, f'seed{k}'), 'wb') as f:
+                    f.write(raw)
+        try:
+            subprocess.run(
+                [sys.executable, worker, SC3_PATH, d, '400000', '150',
+                 str(ctx.seed * 100 + ctx.shard + 1)],
+                stdout=subprocess.DEVNULL, stderr=subprocess.DEVNULL,
+                timeout=900)
+        except subprocess.TimeoutExpired:
+            ctx.notes.append('atheris worker stopped after 900 s')
+        for fn in sorted(os.listdir(d)):
+            with open(os.path.join(d, fn), 'rb') as f:
+                data = f.read()
+            yield {'base': ['raw', data.hex()], 'muts': [], 'serial': 1}
+    finally:
+        shutil.rmtree(d, ignore_errors=True)
+
+
 # --- known findings ---------------------------------------------------------------------
 
 def _case_msgs(case):
@@ -1933,7 +1990,7 @@ def classify_known(stage, case, viol):
                 for n, op in enumerate(ops)):
             return 'server_action_remove_noop'
         return None
-    if stage == 'datagram':
+    if stage in ('datagram', 'datagram_atheris'):
         if k == 'parse_step_budget_exceeded:negative_element_size':
             return 'negative_element_size_loops'
         if k.startswith('malformed_dispatched:'):
@@ -1961,14 +2018,15 @@ def classify_known(stage, case, viol):
 
 def stages(ctx):
     return [
-        Stage('match', run_match, rm.pair_strategy(), quick=1800,
+        Stage('match', run_match, rm.pair_strategy(), quick=2200,
               thorough=12000),
         Stage('match_enum', run_match_enum, cases=enum_cases,
               exhaustive=True),
-        Stage('history', run_history, history_strategy(), quick=500,
+        Stage('history', run_history, history_strategy(), quick=750,
               thorough=3000),
-        Stage('registries', run_registry, registry_strategy(), quick=500,
+        Stage('registries', run_registry, registry_strategy(), quick=600,
               thorough=4000),
-        Stage('datagram', run_datagram, datagram_strategy(), quick=1800,
+        Stage('datagram', run_datagram, datagram_strategy(), quick=2400,
               thorough=12000),
+        Stage('datagram_atheris', run_datagram, cases=atheris_cases),
     ]
